@@ -123,13 +123,16 @@ def run(module, cfg=None, *, workers=16, env=None, timeout=1800, simulate=None,
                         r.bad.append(rec)
                     else:
                         r.json_lines.append(rec)
-        fatal = ("Parsing or semantic analysis failed" in p.stdout or
-                 "TLC threw an unexpected exception" in p.stdout or
-                 "Error: TLC" in p.stdout and "Invariant" not in p.stdout and "is violated" not in p.stdout or
-                 "java.lang.OutOfMemoryError" in p.stdout or
-                 "Error: Evaluating" in p.stdout or
-                 "The exception was a" in p.stdout or
-                 "Error: The" in p.stdout and "behavior up to this point" not in p.stdout and not r.invariant_violated)
+        fatal = False
+        for line in p.stdout.splitlines():
+            if line.startswith("Error:") and not (
+                    ("Invariant" in line and "is violated" in line) or
+                    line.startswith("Error: The behavior up to this point is") or
+                    "is violated" in line):
+                fatal = True
+        if ("Parsing or semantic analysis failed" in p.stdout or "java.lang.OutOfMemoryError" in p.stdout
+                or "TLC threw an unexpected exception" in p.stdout):
+            fatal = True
         done = ("Model checking completed" in p.stdout or "Finished in" in p.stdout or
                 "Simulation" in p.stdout)
         if fatal or (not done):
